@@ -181,8 +181,16 @@ class PlaceInterp(RecInterp):
         env[nm] = v
         return {'k': 'path', 'res': 'Local', 'path': nm, 't': (like or {}).get('t'), 'l': (like or {}).get('l')}
 
-    def _default_of(self, ty):
+    def _default_of(self, ty, depth=0):
         ty = (ty or '').replace('&mut ', '').replace('&', '').strip()
+        facts = getattr(self.ev, 'facts', None)
+        base = strip_generics(ty).split('<')[0]
+        if facts is not None and base in getattr(facts, 'adts', {}) and depth < 4 and not base.startswith('toml_edit::item::Item'):
+            adt = facts.adts[base]
+            if adt.get('kind') == 'struct' and adt.get('variants') and all(f.get('name') and not str(f['name']).isdigit() for f in adt['variants'][0].get('fields', [])):
+                return ('struct', base, {f['name']: self._default_of(f.get('ty'), depth + 1) for f in adt['variants'][0].get('fields', [])})
+        if ty.startswith(MAP_CTOR_PREFIXES) or base.endswith('::KeyValuePairs'):
+            return MapObj((), sorted_='btree' in ty.lower())
         if ty.startswith('toml_edit::item::Item'):
             return ('ctor', 'toml_edit::item::Item::None')
         if ty.startswith('core::option::Option'):
@@ -296,8 +304,13 @@ class PlaceInterp(RecInterp):
             seg = last_seg(p)
             if f.get('k') == 'path' and p.startswith(MAP_CTOR_PREFIXES) and seg in ('new', 'with_capacity', 'default', 'with_capacity_and_hasher', 'with_hasher'):
                 return MapObj((), sorted_='btree' in p.lower())
-            if seg == 'default' and f.get('res') in ('AssocFn', 'Fn') and self._workspace_body(f) is None and not e.get('args'):
+            if seg == 'default' and f.get('res') in ('AssocFn', 'Fn') and not e.get('args'):
                 t = e.get('t') or ''
+                if self._workspace_body(f) is not None:
+                    try:
+                        return super().val(e, env)
+                    except Unanalysable:
+                        return self._default_of(t)
                 if t.startswith(MAP_CTOR_PREFIXES):
                     return MapObj((), sorted_='btree' in t.lower())
                 return self._default_of(t)
@@ -319,6 +332,14 @@ class PlaceInterp(RecInterp):
                 if not 0 <= idx < len(base.items):
                     raise EvalPanic(f'index {idx} out of range for a Vec of {len(base.items)} (line {e.get("l")})')
                 return self._vec_ref(base, idx)
+        if k == 'struct' and e.get('base') is not None:
+            base = deref(self.val(e['base'], env))
+            v = super().val({kk: vv for kk, vv in e.items() if kk != 'base'}, env)
+            if isinstance(v, tuple) and len(v) == 3 and v[0] == 'struct' and isinstance(base, tuple) and len(base) == 3 and base[0] == 'struct' and isinstance(base[2], dict):
+                for fk, fv in base[2].items():
+                    v[2].setdefault(fk, fv)
+                return v
+            raise Unanalysable('struct update syntax over a base the evaluator does not model')
         if k == 'field':
             b = self.val(e['base'], env)
             if isinstance(b, SlotRef) or _has_call(e['base']):
